@@ -95,6 +95,10 @@ pub const MENU: &[(&str, &str, &str)] = &[
     ("hexpr_v", "expr (arg value)", "(arg 1)"),
     ("hftx_v", "(arg value)", "(arg 0)"),
     ("hftx_this_v", "(this value) (arg value)", "sum"),
+    // the receiver is not the first parameter
+    ("hv_this", "(arg value) (this value)", "(arg 1)"),
+    ("hi_this_i", "(arg int) (this int)", "(arg 1)"),
+    ("hv_v_this", "(arg value) (arg value) (this value)", "(arg 2)"),
 ];
 
 pub fn menu_entry(kind: &str) -> (&'static str, &'static str, &'static str) {
@@ -340,6 +344,18 @@ pub fn register(ctx: &mut Context, f: &HostFn) {
                 sum(&v)
             },
         ),
+        "hv_this" => ctx.add_function(name, move |a: Value, This(t): This<Value>| -> R {
+            logcall(&n, &[a, t.clone()]);
+            Ok(t)
+        }),
+        "hi_this_i" => ctx.add_function(name, move |a: i64, This(t): This<i64>| -> R {
+            logcall(&n, &[Value::Int(a), Value::Int(t)]);
+            Ok(Value::Int(t))
+        }),
+        "hv_v_this" => ctx.add_function(name, move |a: Value, b: Value, This(t): This<Value>| -> R {
+            logcall(&n, &[a, b, t.clone()]);
+            Ok(t)
+        }),
         k => panic!("unknown menu kind {}", k),
     }
 }
